@@ -41,8 +41,8 @@ BOUNDS = {
     "gpts": "<= 32 x 32", "atoms": "<= 4", "slices": "<= 3", "configs": "<= 3", "ctf_members": "<= 3",
     "scan_positions": "<= 9, custom positions in [-1.3, 2.3] x extent",
     "interpolation": [[2, 2], [3, 3], [1, 2], [2, 1], [2, 3]],
-    "extra_random_cases": {"quick": 6, "thorough": 260},
-    "interp_extra_random_cases": {"quick": 2, "thorough": 80},
+    "extra_random_cases": {"quick": 6, "thorough": 600},
+    "interp_extra_random_cases": {"quick": 2, "thorough": 200},
 }
 EXHAUSTIVE = False
 ASSUMPTIONS = [
